@@ -82,7 +82,9 @@ impl PruneCfg {
         o.keep_pack = if self.keep_pack_1h { Span::new().hours(1) } else { Span::new() };
         o.keep_delete = if self.keep_delete_23h { Span::new().hours(23) } else { Span::new() };
         o.instant_delete = self.instant_delete;
-        o.early_delete_index = self.early_delete_index && self.instant_delete;
+        // passed as generated: the option is documented to act only together with instant-delete,
+        // which is the library's rule to keep, not the harness's
+        o.early_delete_index = self.early_delete_index;
         o.fast_repack = self.fast_repack;
         o.repack_all = self.repack_all;
         // refused on version 1 repositories (documented)
@@ -126,7 +128,7 @@ pub fn prune_cfg() -> BoxedStrategy<PruneCfg> {
                 keep_pack_1h,
                 keep_delete_23h,
                 instant_delete,
-                early_delete_index: edi && instant_delete,
+                early_delete_index: edi,
                 fast_repack,
                 repack_all,
                 repack_uncompressed: ru,
@@ -152,6 +154,12 @@ pub enum HOp {
     /// a handle loads the index, a non-instant prune (keep-delete 23 h) runs, then the handle backs
     /// up: the new snapshot may reference blobs of packs that are marked for deletion
     PruneThenStaleBackup { prune: PruneCfg, edits: Vec<Edit> },
+    /// the same with several prune runs (all non-instant, keep-delete 23 h) while the stale handle
+    /// is open: what the first one marks must survive the following ones
+    PrunesThenStaleBackup { prunes: Vec<PruneCfg>, edits: Vec<Edit> },
+    /// time passes: the recorded time of every pack (listed or marked) in every index file moves
+    /// `hours` into the past (index files re-encoded with the independent codec)
+    Age { hours: u16 },
 }
 
 pub fn hop(p: TreeParams, craft: bool) -> BoxedStrategy<HOp> {
@@ -175,6 +183,15 @@ pub fn hop(p: TreeParams, craft: bool) -> BoxedStrategy<HOp> {
             prune.keep_delete_23h = true;
             HOp::PruneThenStaleBackup { prune, edits }
         }),
+        1 => (prop::collection::vec(prune_cfg(), 2..4), edits()).prop_map(|(mut prunes, edits)| {
+            for prune in &mut prunes {
+                prune.instant_delete = false;
+                prune.early_delete_index = false;
+                prune.keep_delete_23h = true;
+            }
+            HOp::PrunesThenStaleBackup { prunes, edits }
+        }),
+        2 => prop_oneof![Just(1u16), Just(22), Just(24), Just(48), 1u16..2000].prop_map(|hours| HOp::Age { hours }),
     ]
     .boxed()
 }
@@ -201,6 +218,8 @@ pub struct World {
     pub craft_before_prune: bool,
     pub repacked_or_marked: bool,
     pub recovered: u32,
+    /// hours that have passed through `HOp::Age`
+    pub vhours: i64,
 }
 
 #[derive(Debug, Clone, Default)]
@@ -226,6 +245,7 @@ impl World {
             craft_before_prune: false,
             repacked_or_marked: false,
             recovered: 0,
+            vhours: 0,
         })
     }
 
@@ -389,6 +409,54 @@ impl World {
                         self.craft_before_prune = true;
                     }
                 }
+            }
+            HOp::Age { hours } => {
+                let key = self.key();
+                for id in self.storage.ids(FileType::Index) {
+                    let raw = self.storage.get(FileType::Index, &id).unwrap();
+                    let json = vpcore::fmt::decode_file(&key, &raw).map_err(|e| e.to_string())?;
+                    let mut idx = vpcore::fmt::parse_index(&json)?;
+                    let mut changed = false;
+                    for p in idx.packs.iter_mut().chain(idx.packs_to_delete.iter_mut()) {
+                        if let Some(t) = &p.time {
+                            let ts: jiff::Timestamp = t.parse().map_err(|e| format!("pack time {t:?}: {e}"))?;
+                            let earlier = ts
+                                .checked_sub(jiff::SignedDuration::from_hours(i64::from(*hours)))
+                                .map_err(|e| e.to_string())?;
+                            p.time = Some(earlier.to_string());
+                            changed = true;
+                        }
+                    }
+                    if changed {
+                        let json = serde_json::to_vec(&idx).map_err(|e| e.to_string())?;
+                        let mut seed = 0xA6E ^ u64::from(*hours) ^ self.clock as u64 ^ u64::from(id.to_hex().as_bytes()[0]);
+                        let nonce = vpcore::fmt::next_nonce(&mut seed);
+                        let enc = encode_file(&key, &nonce, &json, None);
+                        let nid: Id32 = sha256(&enc);
+                        self.storage.put(FileType::Index, to_id(&nid), enc);
+                        _ = self.storage.del(FileType::Index, &id);
+                    }
+                }
+                self.vhours += i64::from(*hours);
+            }
+            HOp::PrunesThenStaleBackup { prunes, edits } => {
+                let stale = open_ids(&self.storage, &self.cfg)?;
+                for prune in prunes {
+                    self.prune(prune)?;
+                }
+                if self.forgot_since_prune {
+                    self.prunes_after_forget += 1;
+                }
+                self.forgot_since_prune = false;
+                for l in &mut self.live {
+                    l.pending_recovery = false;
+                }
+                self.edit(edits);
+                let snap = self.backup_on(&stale, false)?;
+                info.new_snaps.push(snap.id);
+                self.add_live(snap, true);
+                self.craft_before_prune = true;
+                info.was_prune = false;
             }
             HOp::PruneThenStaleBackup { prune, edits } => {
                 let stale = open_ids(&self.storage, &self.cfg)?;
